@@ -9,7 +9,7 @@ unchanged (also inside exception groups).
 
 from __future__ import annotations
 
-from .. import treecheck
+from .. import treecheck, treefam
 
 PROPERTY = "C04"
 LEVEL = "exploration"
@@ -31,7 +31,7 @@ SHARD_TIMEOUT = {"quick": 300, "thorough": 1500}
 
 
 def all_cases(tier: str, seed: int):  # noqa: ANN201
-    yield from treecheck.cases("c04", tier, seed, 4000, 60000)
+    yield from treecheck.cases("c04", tier, seed, 4000, 60000, extra=treefam.scope_chains)
 
 
 def shards(tier: str, seed: int) -> list[dict]:
